@@ -3,6 +3,8 @@ package props
 import (
 	"bytes"
 	"encoding/binary"
+	"github.com/pion/turn/v5"
+	"github.com/pion/turn/v5/verifharness/simnet"
 	"math/rand"
 	"net"
 	"testing"
@@ -192,7 +194,11 @@ func init() {
 // both directions over Send/Data indications (before the channel is confirmed) and over ChannelData
 // (after), read only after the whole burst has arrived.
 func runC05E2E(t *testing.T, rng *rand.Rand, rec *sim.Rec, tier string, caseNo int) {
-	cfg := sim.Config{Realm: "verif.test", Users: map[string]string{"alice": "pw-a"}, UDPListeners: []*net.UDPAddr{{IP: sim.ServerIP4, Port: 3478}}}
+	cfg := sim.Config{
+		Realm: "verif.test", Users: map[string]string{"alice": "pw-a"},
+		UDPListeners: []*net.UDPAddr{{IP: sim.ServerIP4, Port: 3478}},
+		TCPListeners: []*net.TCPAddr{{IP: sim.ServerIP4, Port: 3478}},
+	}
 	w, err := sim.NewWorld(cfg, rec, rng, true)
 	if err != nil {
 		t.Fatal(err)
@@ -200,15 +206,36 @@ func runC05E2E(t *testing.T, rng *rand.Rand, rec *sim.Rec, tier string, caseNo i
 	defer w.Shutdown()
 	w.Net.LogSends = false
 	logs := sim.NewLogSink()
-	rc, err := sim.NewRealClient(w.Net, net.IPv4(10, 1, 0, 1).To4(), 5000, "10.0.0.1:3478", "alice", "pw-a", "verif.test", 0, logs, nil)
-	if err != nil {
+	// the client reaches the server over UDP or (every other case) over a TCP control connection,
+	// where every ChannelData message must be padded to a multiple of four on the wire
+	overTCP := caseNo%2 == 1
+	var cl *turn.Client
+	if overTCP {
+		ctrl, err := w.Net.DialTCP(net.IPv4(10, 1, 1, 1).To4(), 0, w.ServerTCP[0].TCPAddr())
+		if err != nil {
+			t.Fatal(err)
+		}
+		cl, err = turn.NewClient(&turn.ClientConfig{
+			STUNServerAddr: "10.0.0.1:3478", TURNServerAddr: "10.0.0.1:3478", Conn: turn.NewSTUNConn(ctrl),
+			Username: "alice", Password: "pw-a", Realm: "verif.test",
+			Net: &simnet.VNet{N: w.Net, HostIP4: net.IPv4(10, 1, 1, 1).To4()}, LoggerFactory: logs,
+		})
+		if err != nil {
+			t.Fatal(err)
+		}
+		defer cl.Close()
+	} else {
+		rc, err := sim.NewRealClient(w.Net, net.IPv4(10, 1, 0, 1).To4(), 5000, "10.0.0.1:3478", "alice", "pw-a", "verif.test", 0, logs, nil)
+		if err != nil {
+			t.Fatal(err)
+		}
+		defer func() { rc.Client.Close(); _ = rc.Conn.Close() }()
+		cl = rc.Client
+	}
+	if err := cl.Listen(); err != nil {
 		t.Fatal(err)
 	}
-	defer func() { rc.Client.Close(); _ = rc.Conn.Close() }()
-	if err := rc.Client.Listen(); err != nil {
-		t.Fatal(err)
-	}
-	conn, err := rc.Client.Allocate()
+	conn, err := cl.Allocate()
 	if err != nil {
 		rec.Inconclusive("allocate: %v", err)
 
@@ -270,7 +297,7 @@ func runC05E2E(t *testing.T, rng *rand.Rand, rec *sim.Rec, tier string, caseNo i
 			}
 		}
 		rec.EvN("e2e-datagrams-compared", 2*n)
-		rec.FP("e2e/%s/burst=%d", phase, min(n/10, 3))
+		rec.FP("e2e/%s/burst=%d/tcp=%v", phase, min(n/10, 3), overTCP)
 	}
 	_, _ = conn.WriteTo([]byte("open"), peer.Addr) // permission + first ChannelBind attempt
 	time.Sleep(5 * time.Millisecond)
